@@ -343,6 +343,33 @@ class Item:
             self.rewrites.append({"rule": "R8", "what": "%d Option combinator(s) with a closure (map / and_then / map_or / is_some_and / ok_or_else / unwrap_or_else) desugared to the match of their std definition" % n})
         return self
 
+    def desugar_slice_patterns(self):
+        """R15: `if let [a, b, ..] = XS.as_slice() {` (identifier sub-patterns only, no rest pattern) is what rustc lowers it to: a length test and
+        references to the elements: `if XS.len() == N { let a = &XS[0]; let b = &XS[1];`.  Verus has no slice patterns.  Other forms are left alone (UNDECIDED)."""
+        def repl(m):
+            names = [n.strip() for n in m.group(1).split(",") if n.strip()]
+            xs = m.group(2)
+            return "if %s.len() == %d { %s" % (xs, len(names), " ".join("let %s = &%s[%d];" % (n, xs, i) for i, n in enumerate(names) if n != "_"))
+        self.text, n = re.subn(r"if let \[((?:\s*\w+\s*,?)+)\] = (?:&)?([\w.]+)(?:\.as_slice\(\)|\[\.\.\]) \{", repl, self.text)
+        if n:
+            self.rewrites.append({"rule": "R15", "what": "%d slice pattern(s) `if let [a, b] = xs.as_slice()` desugared to a length test and element references" % n})
+        return self
+
+    def desugar_result_ctor_chains(self):
+        """R8 (Result): `CALL.map(Ctor).unwrap_or(D)` -> `(match CALL { Ok(v) => Ctor(v), Err(_) => D })` and `CALL.map(Ctor).ok()` ->
+        `(match CALL { Ok(v) => Some(Ctor(v)), Err(_) => None })` - the std definitions of Result::map / unwrap_or / ok; CALL is a call `f(..)` without nested calls,
+        Ctor a constructor path (no closure)."""
+        n = 0
+        pat1 = re.compile(r"(\w+\([^()]*\))\s*\.map\((\w+(?:::\w+)+)\)\s*\.unwrap_or\(((?:[^()]|\([^()]*\))*)\)")
+        self.text, k = pat1.subn(r"(match \1 { Ok(verif_v) => \2(verif_v), Err(_) => \3 })", self.text)
+        n += k
+        pat2 = re.compile(r"(\w+\([^()]*\))\s*\.map\((\w+(?:::\w+)+)\)\s*\.ok\(\)")
+        self.text, k = pat2.subn(r"(match \1 { Ok(verif_v) => Some(\2(verif_v)), Err(_) => None })", self.text)
+        n += k
+        if n:
+            self.rewrites.append({"rule": "R8", "what": "%d `call.map(Ctor).unwrap_or(d)` / `.ok()` chain(s) on a Result desugared to the match of their std definition" % n})
+        return self
+
     def desugar_map_transpose(self):
         """R8 (Option<Result>): `OPT.map(|x| CALL).transpose()?` is, by the std definitions of Option::map and Option::transpose,
         `(match OPT { Some(x) => Some(CALL?), None => None })`.  OPT is a field path."""
@@ -719,6 +746,50 @@ class Item:
                 self.rewrites.append({"rule": "R11", "what": "`for %s in %s` desugared to `let mut %s = %s; while let Some(%s) = %s.next()`" % (pat, expr, it, ctor.split("(")[0] + "(..)", pat, it)})
                 return it
         raise ExtractionError("%s: loop #%d not found" % (self.name, ordinal))
+
+    def desugar_range_for(self, ordinal, fn_name=None):
+        """R11 (ranges): the ordinal-th loop, which must be `for _ in 0..N { .. }`, is desugared as rustc does for a Range<usize>:
+        `let verif_endK = N; let mut verif_iK: usize = 0; while verif_iK < verif_endK { verif_iK = verif_iK + 1; .. }` (N is evaluated once; `break` keeps
+        its meaning).  Returns the name of the counter."""
+        toks, bi = self._body_open(fn_name)
+        src = self.text
+        cnt = 0
+        for idx in range(bi, len(toks)):
+            kind, s, e = toks[idx]
+            if kind == "ident" and src[s:e] in ("for", "while", "loop"):
+                cnt += 1
+                if cnt != ordinal:
+                    continue
+                j = find_block_open(src, toks, idx + 1)
+                head = src[s:toks[j][1]]
+                m = re.match(r"for _ in 0\.\.(.+?)\s*$", head, re.S)
+                if not m:
+                    raise ExtractionError("%s: loop #%d is not `for _ in 0..N`" % (self.name, ordinal))
+                i, n = "verif_i%d" % ordinal, "verif_end%d" % ordinal
+                self.text = (src[:s] + "let %s: usize = %s;\n            let mut %s: usize = 0;\n            while %s < %s " % (n, m.group(1).strip(), i, i, n)
+                             + "{\n                %s = %s + 1;" % (i, i) + src[toks[j][2]:])
+                self.rewrites.append({"rule": "R11", "what": "`for _ in 0..%s` desugared to a counter loop (`let %s = ..; let mut %s = 0; while %s < %s { %s += 1; ..`)" % (m.group(1).strip(), n, i, i, n, i)})
+                return i
+        raise ExtractionError("%s: loop #%d not found" % (self.name, ordinal))
+
+    def rebind_mut_self(self):
+        """R3: `fn f(mut self, ..)` -> `fn f(self, ..) { let mut verif_self = self; .. }` with the body's occurrences of `self` alpha-renamed (Verus has no `mut self`)."""
+        toks, bi = self._body_open()
+        src = self.text
+        head, body = src[:toks[bi][2]], src[toks[bi][2]:]
+        if not re.search(r"\(\s*mut self\b", head):
+            return self
+        head = re.sub(r"\(\s*mut self\b", "(self", head, count=1)
+        btoks = code_tokens(body)
+        out, last = [], 0
+        for kind, a, b in btoks:
+            if kind == "ident" and body[a:b] == "self":
+                out.append(body[last:a] + "verif_self")
+                last = b
+        out.append(body[last:])
+        self.text = head + "\n    let mut verif_self = self;" + "".join(out)
+        self.rewrites.append({"rule": "R3", "what": "`mut self` rebound: `let mut verif_self = self;`, occurrences of `self` in the body renamed"})
+        return self
 
     def insert_at_body_start(self, text, why, fn_name=None):
         """Insert ghost/proof text right after the opening brace of the fn body (no statement anchor needed)."""
